@@ -346,6 +346,8 @@ func VarsIn(info *types.Info, e ast.Node) map[types.Object]bool {
 		if id, ok := n.(*ast.Ident); ok {
 			if v, ok := info.Uses[id].(*types.Var); ok && !v.IsField() {
 				out[v] = true
+			} else if v, ok := info.Defs[id].(*types.Var); ok && !v.IsField() {
+				out[v] = true // a synthesized fact may reuse the defining identifier
 			}
 		}
 		return true
